@@ -498,14 +498,23 @@ func CheckTree(prop string, c *TreeCase, st *Stats) *Violation {
 	}
 	if e.Known {
 		if KnownClassAny(F3Class) {
-			// the recorded finding decides one level's verdict: the case is still run and everything else (routing, hooks,
-			// policy, streams) is demanded with exactly the greedy-group verdict at that level
+			// the recorded finding may decide one level's verdict: the case is still run and everything else (routing, hooks,
+			// policy, streams) is demanded, either with exactly the greedy-group verdict at that level or - the library may
+			// have found an accepting derivation the greedy rule does not exclude - with the ideal verdict
 			st.Class("known:" + F3Class)
-		} else {
-			// without the known-finding entry the ideal verdict is demanded
-			e = ExpectTree(c, true)
+			if v := checkTreeExpect(prop, c, st, e); v == nil {
+				return nil
+			}
+			return checkTreeExpect(prop, c, st, ExpectTree(c, true))
 		}
+		// without the known-finding entry the ideal verdict is demanded
+		e = ExpectTree(c, true)
 	}
+	return checkTreeExpect(prop, c, st, e)
+}
+
+// checkTreeExpect runs the case and compares it with one expectation.
+func checkTreeExpect(prop string, c *TreeCase, st *Stats, e TreeExpect) *Violation {
 	if e.NoAction {
 		st.Class("unclaimed:addressed-command-without-action")
 		return nil
